@@ -195,7 +195,8 @@ PROPS = {
     },
     "C06": {
         "level": "exploration",
-        "jobs": [{"test": "TestC06", "kind": "rapid", "quick": 60000, "thorough": 1000000}],
+        "jobs": [{"test": "TestC06", "kind": "rapid", "quick": 60000, "thorough": 1000000},
+                 {"test": "TestC06Known", "kind": "plain", "shards": 1}],
         "fuzz": [{"fuzz": "FuzzSML", "budget_s": 240}],
         "floors": {"origin:soup": ("job:TestC06", 0.3), "origin:nesting": ("job:TestC06", 0.05), "origin:valid-text": ("job:TestC06", 0.1), "origin:mutated-valid-text": ("job:TestC06", 0.1),
                    "outcome:accepted": ("job:TestC06", 0.1), "outcome:errors": ("job:TestC06", 0.3)},
